@@ -296,7 +296,8 @@ def run(rng, tier, deep):
         others = [float(v) for v in rng.choice([rng.uniform(-40, -1e-3), rng.uniform(1e-3, 15), 0.0], size=int(rng.integers(1, 5)))] if rng.random() < 0.5 else None
         if others:
             others = [float(rng.uniform(-30, 10)) for _ in others]
-        run_oracle(st, o_stability, dict(x=float(rng.choice([rng.uniform(-40, -1e-3), rng.uniform(1e-3, 15)])), zm=float(rng.uniform(1, 40)), others=others))
+        run_oracle(st, o_stability, dict(x=float(rng.choice([rng.uniform(-40, -1e-3), rng.uniform(1e-3, 15), -10.0 ** rng.uniform(-6, 1.6), 10.0 ** rng.uniform(-6, 1.2)])),   # incl. near-neutral magnitudes
+                                          zm=float(rng.uniform(1, 40)), others=others))
     return finish(st, "closures MOST/MOSTM/CONSTANT/OAAHOC x ustar/z0 forcing x stability of both signs up to neutral x 1..40 layers x Prandtl numbers x "
                   "default and user-chosen stretch/domain height (inside the valid range) + a malformed stream (bad closure, both/neither of z0, ustar); "
                   "correspondence of psi, phi and the whole vertical_profiles output incl. the grid length (5e-9; worst gap observed on the clean tree 2e-11, from log cancellation); oracle: grid/wind/K identities, "
